@@ -87,6 +87,10 @@ def value(kind, kwargs):
         return (s, -s - 1.0, s * 0.5 + 3.0)
     if kind in ("array", "array-constdim"):  # one output that is a length-3 list
         return [s, s + 0.5, -s]
+    if kind == "npscalar":  # a numpy scalar, as numerical code returns
+        return np.float64(s)
+    if kind == "complex":
+        return complex(s, 0.5)
     if kind == "ndarray":  # the same as a numpy array (what user functions usually return)
         return np.array([s, s + 0.5, -s])
     if kind == "intarray":  # integer dtype: nan does not fit into it
